@@ -97,8 +97,8 @@ class DSDLDefinition(ReadableDSDLFile):
                 pass
             else:
                 return path_to_root
-            # then we try resolving the root path if it is absolute
-            if path_to_root.is_absolute() and resolved_dsdl_path is not None:
+            # then we try resolving the root path (a relative root is relative to the working directory)
+            if resolved_dsdl_path is not None:
                 path_to_root_resolved = path_to_root.resolve(strict=False)
                 try:
                     _ = resolved_dsdl_path.relative_to(path_to_root_resolved).parent
